@@ -949,9 +949,16 @@ class Folder:
         except (IndexError, KeyError, TypeError, ValueError) as ex:
             raise FoldRaise(type(ex).__name__, str(ex))
 
-    @staticmethod
-    def _truth(v) -> bool:
-        if isinstance(v, (EV, DV, ClsRef)):
+    def _truth(self, v) -> bool:
+        if isinstance(v, (EV, DV)):
+            # truth value of an object of the subject: __bool__, else __len__ != 0, else true
+            for dn in ('__bool__', '__len__'):
+                c, fn = self._find(v.cls, dn)
+                if fn is not None:
+                    r = self._invoke(c.module, c, fn, v, [], {})
+                    return bool(r) if dn == '__bool__' else r != 0
+            return True
+        if isinstance(v, ClsRef):
             return True
         return bool(v)
 
@@ -1196,11 +1203,11 @@ class Folder:
         if isinstance(e, ast.IfExp):
             return self._eval(e.body if self._truth(self._eval(e.test, env, mod, ci)) else e.orelse, env, mod, ci)
         if isinstance(e, ast.Tuple):
-            return tuple(self._eval(x, env, mod, ci) for x in e.elts)
+            return tuple(self._elts(e.elts, env, mod, ci))
         if isinstance(e, ast.List):
-            return [self._eval(x, env, mod, ci) for x in e.elts]
+            return self._elts(e.elts, env, mod, ci)
         if isinstance(e, ast.Set):
-            return set(self._eval(x, env, mod, ci) for x in e.elts)
+            return set(self._elts(e.elts, env, mod, ci))
         if isinstance(e, ast.Dict):
             return {self._eval(k, env, mod, ci): self._eval(v, env, mod, ci) for k, v in zip(e.keys, e.values)}
         if isinstance(e, ast.Subscript):
@@ -1364,9 +1371,36 @@ class Folder:
             return self.stubs[ftxt](*[self._eval(a, env, mod, ci) for a in e.args],
                                     **{k.arg: self._eval(k.value, env, mod, ci) for k in e.keywords})
         f = self._eval(e.func, env, mod, ci)
-        args = [self._eval(a, env, mod, ci) for a in e.args]
-        kw = {k.arg: self._eval(k.value, env, mod, ci) for k in e.keywords}
+        args = self._elts(e.args, env, mod, ci)
+        kw = {}
+        for k in e.keywords:
+            if k.arg is None:
+                d_ = self._eval(k.value, env, mod, ci)
+                if not isinstance(d_, dict):
+                    raise Unsupported('** of a non-dict')
+                kw.update(d_)
+            else:
+                kw[k.arg] = self._eval(k.value, env, mod, ci)
         return self._apply(f, args, kw, e)
+
+    def _elts(self, elts, env, mod, ci) -> list:
+        """Values of an argument list / display; `*x` spreads the items of x."""
+        out = []
+        for a in elts:
+            if isinstance(a, ast.Starred):
+                v = self._eval(a.value, env, mod, ci)
+                if isinstance(v, ClsRef) and v.cls.is_enum:
+                    v = [EV(v.cls, n, x) for n, x in v.cls.enum_members().items()]
+                elif isinstance(v, (set, frozenset)):
+                    v = sorted(v, key=repr)
+                elif isinstance(v, (dict, type({}.items()), type({}.keys()), type({}.values()))):
+                    v = list(v)
+                if not isinstance(v, (list, tuple, range, str, LazyIter)):
+                    raise Unsupported('* of ' + type(v).__name__)
+                out.extend(self._iterate(v))
+            else:
+                out.append(self._eval(a, env, mod, ci))
+        return out
 
     def _apply(self, f, args, kw, e=None):
         """Call the value `f` of the subject with evaluated arguments."""
@@ -1419,6 +1453,13 @@ class Folder:
                 mem = [EV(args[0].cls, k, v) for k, v in args[0].cls.enum_members().items()]
                 return len(mem) if n == 'len' else {'list': list, 'tuple': tuple, 'set': set}[n](mem)
             if n == 'len':
+                if isinstance(args[0], DV):
+                    c_, fn_ = self._find(args[0].cls, '__len__')
+                    if fn_ is None:
+                        raise FoldRaise('TypeError', f"object of type '{args[0].cls.name}' has no len()")
+                    return self._invoke(c_.module, c_, fn_, args[0], [], {})
+                if isinstance(args[0], (EV, ClsRef)) or args[0] is None or isinstance(args[0], (int, float)):
+                    raise FoldRaise('TypeError', f"object of type '{type(args[0]).__name__}' has no len()")
                 return len(args[0])
             if n == 'set':
                 return set(args[0]) if args else set()
@@ -1616,4 +1657,7 @@ class PartialEvaluator:
         v = self.eval(e)
         if v is NOVALUE:
             return None
-        return Folder._truth(v)
+        try:
+            return self.folder._truth(v)
+        except (Unsupported, FoldRaise):
+            return None
